@@ -20,7 +20,8 @@ def S(t):
 # attribute-style and method-style members: cls -> [(rendering template, type, needs_args)]
 MEMBERS = {
     "Evt": [(".met", F), (".run", I), (".jets()", S(JET)), (".nums()", S(I)), (".met", F), (".groups()", S(S(I)))],
-    "Jet": [(".pt", F), (".eta", F), (".idx", I), (".ok()", B), (".trks()", S(TRK)), (".scaled({F}, {I})", F), (".pt", F)],
+    "Jet": [(".pt", F), (".eta", F), (".idx", I), (".ok()", B), (".trks()", S(TRK)), (".scaled({F}, {I})", F), (".pt", F),
+            (".scaled(off={I})", F), (".scaled({F}, off={I})", F), (".scaled(off={I}, f={F})", F)],
     "Trk": [(".pt", F), (".n", I), (".good()", B), (".pt", F)],
 }
 # C01 flavour: everything is a method (what a typed func_adl model looks like), with omitted defaults / keywords
